@@ -488,7 +488,13 @@ class FieldHeader:
 
     @property
     def disambiguated(self) -> str:
-        return self.raw + "_" if self.raw in utils.RESERVED_NAMES else self.raw
+        # The header may name a nested field (e.g. `book.class`); each segment
+        # of the path is the attribute of a (sub)message and is disambiguated
+        # on its own, as in `utils.convert_uri_fieldnames`.
+        return ".".join(
+            segment + "_" if segment in utils.RESERVED_NAMES else segment
+            for segment in self.raw.split(".")
+        )
 
 
 @dataclasses.dataclass(frozen=True)
